@@ -17,6 +17,7 @@ from pyvc.unit import unit
 from pyvc import core
 
 LEVEL = "other"
+STANDIN_ALWAYS_THOROUGH = True      # its large bound takes seconds: used at both tiers
 EXPLANATION = ("MIXED. Deductive part: finite case analysis over every history of up to three steps from an alphabet of eleven (peer message, four kinds of peer close frame, two kinds of local "
                "close, peer disconnect, 1 s and 6 s of virtual time, application write) run through the real Application / WebSocketHandler / WebSocketProtocol13 and judged clause by clause. "
                "Bounded part: random histories of up to 8 steps including ping-interval / ping-timeout configurations, pongs and fragmented in-flight messages.")
